@@ -48,6 +48,27 @@ ASSUMPTIONS = [
 ]
 
 
+def fixed_cases(tier):
+    """A 12 x 10 instance (120 operations; 1410 edges in the disjunctive
+    graph): sizes no generated case reaches, one whole episode each."""
+    big_inst = gen.big_classic(12, 10)
+    return [
+        {
+            "kind": "single",
+            "inst": big_inst,
+            "builder": b,
+            "features": [["is_ready", None, 0], ["duration", None, 1]],
+            "reward": "makespan",
+            "flags": [True, True],
+            "filters": "default",
+            "padding": True,
+            "episodes": [[[[(5 * k + 2) % 16, 0] for k in range(120)], None]],
+            "prune": [],
+        }
+        for b in ("disjunctive", "agent_task")
+    ]
+
+
 def strategy(tier):
     big = tier == "thorough"
     kw = dict(max_jobs=4, max_ops=4, max_machines=4, max_total=14 if big else 10, zero_ok=False)
